@@ -1,1 +1,427 @@
-//! C03 - not built yet
+//! C03 - accepted programs elaborate to well-typed IR; ill-typed programs are rejected.
+//!
+//! Positive monitor: every module the type checker accepts (unit-test snippets, corpus, generated
+//! programs) is walked by an independent typing checker (oracle::irck) and the IR's own typing function is
+//! asked for every expression under panic capture.
+//! Negative monitor: small programs carrying exactly one violation of the five classes the property
+//! names (with an accepted twin that differs only in the violation) must be rejected.
+
+use crate::corpus;
+use crate::gen::{decl, prog};
+use crate::json::Json;
+use crate::oracle::irck;
+use crate::report::{Ctx, Report};
+use crate::rng::{hash_str, Rng};
+use crate::rs::{self, Front};
+use crate::CheckDef;
+
+pub fn def() -> CheckDef {
+    CheckDef {
+        id: "C03",
+        salt: 0xC03,
+        rule: "positive: every accepted module among the unit-test snippets, the tests/ corpus entry files, generated executable programs \
+               (gen::prog) and declaration programs (gen::decl) is re-typed expression by expression with rules written from the property \
+               (oracle::irck) and the IR's own get_type is called on every expression under panic capture; negative: an exhaustive table of \
+               scalar kind x vector width x {const local, static const global, const parameter, literal, arithmetic rvalue, call result, \
+               repeated-component swizzle} x {=, compound assignments, ++/--, out argument, inout argument}, plus wrong argument counts, \
+               unconvertible argument types and wrong return types; each negative program has an accepted twin that differs only in the \
+               injected violation (if the twin is rejected the pair is skipped). evaluations = modules walked + negative programs \
+               submitted; distinct_nontrivial = distinct accepted modules walked + distinct negative programs whose twin was accepted",
+        assumptions: &[
+            "typing rules are the property's (plus the documented untyped-literal relaxation), not full HLSL typing: an ill-typed program outside the five named classes is not detected",
+            "conditions of if/while/for are not required to be bool",
+        ],
+        min_distinct: (1500, 8000),
+        deadline_s: (90.0, 900.0),
+        run,
+        replay,
+    }
+}
+
+/// Walk one accepted module; returns number of problems reported
+pub fn check_module(m: &rssl::ir::Module, text: &str, origin: &str, report: &mut Report) {
+    let mut ck = irck::Checker::new(m);
+    let r = crate::par::guard(|| {
+        ck.module();
+    });
+    report.evaluations += 1;
+    report.count_n("expressions_retyped", ck.expressions_checked);
+    report.count_n("statements_walked", ck.statements_checked);
+    if let Err(c) = r {
+        // the checker only calls registry accessors: a panic here means a dangling id inside the module
+        report.violation(
+            &format!("ill-typed-ir:accessor-panic:{}", c.signature()),
+            &format!("walking the accepted module panics inside an IR accessor at {} ({})", c.location, origin),
+            Json::obj().set("origin", origin).set("program", text).set("panic", c.message.as_str()),
+        );
+    }
+    for p in &ck.problems {
+        report.violation(
+            &format!("ill-typed-ir:{}", p.class),
+            &format!("accepted program has ill-typed IR ({}): {} {}", origin, p.class, p.detail),
+            Json::obj().set("origin", origin).set("program", text).set("problem", p.class.as_str()).set("detail", p.detail.as_str()),
+        );
+    }
+    let (asked, problems) = irck::ask_ir_types(m);
+    report.count_n("ir_get_type_calls", asked);
+    for p in &problems {
+        report.violation(
+            &format!("ill-typed-ir:{}", p.class),
+            &format!("accepted program ({}): {}", origin, p.detail),
+            Json::obj().set("origin", origin).set("program", text).set("problem", p.class.as_str()).set("detail", p.detail.as_str()),
+        );
+    }
+}
+
+fn positive(text: &str, origin: &str, report: &mut Report) -> bool {
+    match rs::front_text(text, true) {
+        Front::Ok((_, Some(m))) => {
+            report.count("positive:accepted");
+            check_module(&m, text, origin, report);
+            true
+        }
+        Front::Ok(_) => false,
+        Front::Diag(_) => {
+            report.count("positive:rejected-input");
+            false
+        }
+        Front::Panic(c) => {
+            report.count(&format!("skipped:front-end-panic:{}", c.signature()));
+            false
+        }
+    }
+}
+
+// ------------------------------------------------------------------------------------------------
+// negative table
+// ------------------------------------------------------------------------------------------------
+
+#[derive(Clone, Debug)]
+pub struct Negative {
+    pub class: &'static str,
+    pub bad: String,
+    /// differs from `bad` only in the violation
+    pub twin: String,
+}
+
+fn tname(kind: &str, w: usize) -> String {
+    if w == 1 {
+        kind.to_string()
+    } else {
+        format!("{}{}", kind, w)
+    }
+}
+
+fn value_of(kind: &str, w: usize, n: u32) -> String {
+    let lit = match kind {
+        "bool" => if n % 2 == 0 { "true" } else { "false" }.to_string(),
+        "int" => format!("{}", n),
+        "uint" => format!("{}u", n),
+        "half" => format!("{}.0h", n),
+        "float" => format!("{}.0f", n),
+        _ => format!("{}.0L", n),
+    };
+    if w == 1 {
+        lit
+    } else {
+        format!("({}){}", tname(kind, w), lit)
+    }
+}
+
+pub fn negative_table() -> Vec<Negative> {
+    let mut out = Vec::new();
+    let kinds = ["bool", "int", "uint", "half", "float", "double"];
+    for kind in kinds {
+        for w in 1..=4usize {
+            let t = tname(kind, w);
+            let v1 = value_of(kind, w, 1);
+            let v2 = value_of(kind, w, 2);
+            let is_int = kind == "int" || kind == "uint";
+            let is_bool = kind == "bool";
+            // write operations applied to a target expression `TGT`
+            let mut ops: Vec<(&str, String)> = vec![("assign", format!("TGT = {};", v2))];
+            if !is_bool {
+                ops.push(("add-assign", format!("TGT += {};", v2)));
+                ops.push(("sub-assign", format!("TGT -= {};", v2)));
+                ops.push(("mul-assign", format!("TGT *= {};", v2)));
+                ops.push(("div-assign", format!("TGT /= {};", v2)));
+                ops.push(("pre-increment", "++TGT;".to_string()));
+                ops.push(("post-increment", "TGT++;".to_string()));
+                ops.push(("pre-decrement", "--TGT;".to_string()));
+                ops.push(("post-decrement", "TGT--;".to_string()));
+            }
+            if is_int {
+                ops.push(("mod-assign", format!("TGT %= {};", v2)));
+                ops.push(("shl-assign", format!("TGT <<= {};", v2)));
+                ops.push(("and-assign", format!("TGT &= {};", v2)));
+                ops.push(("or-assign", format!("TGT |= {};", v2)));
+                ops.push(("xor-assign", format!("TGT ^= {};", v2)));
+            }
+            ops.push(("out-argument", "sink_out(TGT);".to_string()));
+            ops.push(("inout-argument", "sink_inout(TGT);".to_string()));
+            // target forms: (class, prelude before the function, declarations inside, bad target, good target)
+            let mut forms: Vec<(&'static str, String, String, String, String)> = Vec::new();
+            forms.push(("write-to-const-local", String::new(), format!("const {} c = {}; {} m = {};", t, v1, t, v1), "c".into(), "m".into()));
+            forms.push(("write-to-static-const-global", format!("static const {} gc = {};\nstatic {} gm = {};\n", t, v1, t, v1), String::new(), "gc".into(), "gm".into()));
+            forms.push(("write-to-const-parameter", String::new(), String::new(), "pc".into(), "pm".into()));
+            forms.push(("write-to-literal", String::new(), format!("{} m = {};", t, v1), format!("({})", v1), "m".into()));
+            if !is_bool {
+                forms.push(("write-to-arithmetic-rvalue", String::new(), format!("{} m = {}; {} n = {};", t, v1, t, v1), "(m + n)".into(), "m".into()));
+            }
+            forms.push(("write-to-call-result", format!("{} produce() {{ return {}; }}\n", t, v1), format!("{} m = {};", t, v1), "produce()".into(), "m".into()));
+            forms.push(("write-to-const-struct-member", format!("struct Box {{ {} v; }};\n", t), format!("const Box cb = {{ {} }}; Box mb = {{ {} }};", v1, v1), "cb.v".into(), "mb.v".into()));
+            forms.push(("write-to-const-array-element", String::new(), format!("const {} ca[2] = {{ {}, {} }}; {} ma[2] = {{ {}, {} }};", t, v1, v1, t, v1, v1), "ca[1]".into(), "ma[1]".into()));
+            if w >= 2 {
+                forms.push(("write-to-repeated-swizzle", String::new(), format!("{} m = {};", t, v1), "m.xx".into(), "m.xy".into()));
+            }
+            for (class, prelude, decls, bad_t, good_t) in &forms {
+                for (opname, op) in &ops {
+                    // the operand type of the repeated swizzle form is the 2-vector
+                    let (sink_t, op_text) = if *class == "write-to-repeated-swizzle" {
+                        let t2 = tname(kind, 2);
+                        (t2.clone(), op.replace(&v2, &value_of(kind, 2, 2)))
+                    } else {
+                        (t.clone(), op.clone())
+                    };
+                    let make = |target: &str| -> String {
+                        format!(
+                            "{}void sink_out(out {} o) {{ o = {}; }}\nvoid sink_inout(inout {} o) {{ o = {}; }}\nvoid test(const {} pc, {} pm)\n{{\n    {}\n    {}\n}}\n",
+                            prelude,
+                            sink_t,
+                            value_of(kind, if *class == "write-to-repeated-swizzle" { 2 } else { w }, 3),
+                            sink_t,
+                            value_of(kind, if *class == "write-to-repeated-swizzle" { 2 } else { w }, 3),
+                            t,
+                            t,
+                            decls,
+                            op_text.replace("TGT", target)
+                        )
+                    };
+                    let class_full: &'static str = match (*class, *opname) {
+                        (c, o) if o.ends_with("argument") => leak(format!("{}:{}", c.replace("write-to", "pass"), o)),
+                        (c, o) => leak(format!("{}:{}", c, o)),
+                    };
+                    out.push(Negative {
+                        class: class_full,
+                        bad: make(bad_t),
+                        twin: make(good_t),
+                    });
+                }
+            }
+        }
+    }
+    // argument counts and unconvertible argument types, wrong return types
+    let scalars = ["bool", "int", "uint", "half", "float", "double"];
+    for k in scalars {
+        let v = value_of(k, 1, 1);
+        let pre = format!("struct A {{ {} x; }};\nstruct B {{ {} y; }};\n{} one({} a) {{ return a; }}\n{} two({} a, {} b) {{ return a; }}\nvoid nothing() {{}}\n", k, k, k, k, k, k, k);
+        let mk = |body: &str| format!("{}void test()\n{{\n    A sa = {{ {} }};\n    B sb = {{ {} }};\n    {} arr[2] = {{ {}, {} }};\n    {} s = {};\n    {}\n}}\n", pre, v, v, k, v, v, k, v, body);
+        let cases: Vec<(&'static str, String, String)> = vec![
+            ("too-many-arguments", "one(s, s);".into(), "one(s);".into()),
+            ("too-few-arguments", "two(s);".into(), "two(s, s);".into()),
+            ("no-arguments", "one();".into(), "one(s);".into()),
+            ("struct-passed-for-scalar", "one(sa);".into(), "one(s);".into()),
+            ("array-passed-for-scalar", "one(arr);".into(), "one(arr[0]);".into()),
+            ("void-passed-for-scalar", "one(nothing());".into(), "one(s);".into()),
+            ("scalar-assigned-to-struct", "sa = s;".into(), "sa.x = s;".into()),
+            ("struct-assigned-to-other-struct", "sa = sb;".into(), "sa.x = sb.y;".into()),
+            ("array-assigned-to-scalar", "s = arr;".into(), "s = arr[1];".into()),
+        ];
+        for (class, bad, good) in cases {
+            out.push(Negative {
+                class: leak(format!("{}:{}", class, k)),
+                bad: mk(&bad),
+                twin: mk(&good),
+            });
+        }
+        let rets: Vec<(&'static str, String, String)> = vec![
+            ("return-struct-from-scalar-function", format!("struct A {{ {} x; }};\n{} f() {{ A a = {{ {} }}; return a; }}\n", k, k, v), format!("struct A {{ {} x; }};\n{} f() {{ A a = {{ {} }}; return a.x; }}\n", k, k, v)),
+            ("return-value-from-void-function", format!("void f() {{ return {}; }}\n", v), "void f() { return; }\n".to_string()),
+            ("return-nothing-from-value-function", format!("{} f() {{ return; }}\n", k), format!("{} f() {{ return {}; }}\n", k, v)),
+            ("return-scalar-from-struct-function", format!("struct A {{ {} x; }};\nA f() {{ return {}; }}\n", k, v), format!("struct A {{ {} x; }};\nA f() {{ A a = {{ {} }}; return a; }}\n", k, v)),
+            ("return-array-from-scalar-function", format!("{} f() {{ {} arr[2] = {{ {}, {} }}; return arr; }}\n", k, k, v, v), format!("{} f() {{ {} arr[2] = {{ {}, {} }}; return arr[0]; }}\n", k, k, v, v)),
+        ];
+        for (class, bad, good) in rets {
+            out.push(Negative {
+                class: leak(format!("{}:{}", class, k)),
+                bad,
+                twin: good,
+            });
+        }
+    }
+    out
+}
+
+fn leak(s: String) -> &'static str {
+    Box::leak(s.into_boxed_str())
+}
+
+fn accepted(text: &str) -> Result<bool, String> {
+    match rs::front_text(text, true) {
+        Front::Ok(_) => Ok(true),
+        Front::Diag(_) => Ok(false),
+        Front::Panic(c) => Err(c.signature()),
+    }
+}
+
+pub fn negative(n: &Negative, report: &mut Report) -> bool {
+    match accepted(&n.twin) {
+        Ok(true) => {}
+        Ok(false) => {
+            report.count("negative:twin-rejected-skipped");
+            report.count(&format!("twin-rejected:{}", n.class.split(':').next().unwrap_or("")));
+            return false;
+        }
+        Err(sig) => {
+            report.count(&format!("skipped:front-end-panic:{}", sig));
+            return false;
+        }
+    }
+    report.evaluations += 1;
+    match accepted(&n.bad) {
+        Ok(false) => {
+            report.count("negative:rejected-as-required");
+            true
+        }
+        Ok(true) => {
+            let family = n.class.split(':').next().unwrap_or(n.class);
+            report.violation(
+                &format!("ill-typed-program-accepted:{}", family),
+                &format!("a program with exactly one typing violation ({}) is accepted", n.class),
+                Json::obj().set("class", n.class).set("program", n.bad.as_str()).set("accepted_twin", n.twin.as_str()),
+            );
+            true
+        }
+        Err(sig) => {
+            report.count(&format!("skipped:front-end-panic:{}", sig));
+            false
+        }
+    }
+}
+
+enum Case {
+    Snippet(usize),
+    Corpus(usize, usize),
+    Prog(u64),
+    Decl(u64),
+    Negative(usize),
+}
+
+fn run(ctx: &Ctx) -> Report {
+    let snippets = corpus::test_snippets();
+    let sets = corpus::load();
+    let table = negative_table();
+    let mut cases = Vec::new();
+    for i in 0..snippets.len() {
+        cases.push(Case::Snippet(i));
+    }
+    for (si, s) in sets.iter().enumerate() {
+        for ei in 0..s.entries.len() {
+            cases.push(Case::Corpus(si, ei));
+        }
+    }
+    for i in 0..ctx.tier.pick(1500, 40_000) {
+        cases.push(Case::Prog(i));
+    }
+    for i in 0..ctx.tier.pick(300, 5_000) {
+        cases.push(Case::Decl(i));
+    }
+    // quick: a deterministic third of the table (rotating with the seed), thorough: all of it
+    let stride = 1usize; // the table is small: both tiers enumerate it completely
+    let offset = (ctx.seed % 3) as usize;
+    let mut taken = 0u64;
+    for i in 0..table.len() {
+        if stride == 1 || i % stride == offset % stride {
+            cases.push(Case::Negative(i));
+            taken += 1;
+        }
+    }
+    let seed = ctx.seed;
+    let mut report = crate::par::run_cases(ctx, cases.len() as u64, |index, report| match &cases[index as usize] {
+        Case::Snippet(i) => {
+            if positive(&snippets[*i], &format!("unit-test-snippet:{}", i), report) {
+                report.distinct(hash_str(&snippets[*i]));
+            }
+        }
+        Case::Corpus(si, ei) => {
+            let s = &sets[*si];
+            // the corpus needs its include handler and defines: go through the stage APIs by hand
+            let origin = format!("corpus:{}:{}", s.name, s.entries[*ei]);
+            let r = crate::par::guard(|| {
+                let mut sm = rssl::text::SourceManager::new();
+                let mut h = rs::FilesHandler::new(&s.files);
+                let mut defines: Vec<(&str, &str)> = vec![("__HLSL_VERSION", "2021"), ("RSSL_TARGET_HLSL", "1"), ("RSSL_TARGET_MSL", "0")];
+                for (a, b) in &s.defines {
+                    defines.push((a.as_str(), b.as_str()));
+                }
+                let tokens = rssl::preprocess::preprocess(&s.entries[*ei], &mut sm, &mut h, &defines).ok()?;
+                let tokens = rssl::preprocess::prepare_tokens(&tokens);
+                let ast = rssl::parser::parse(&tokens).ok()?;
+                rssl::typer::type_check(&ast).ok()
+            });
+            match r {
+                Ok(Some(m)) => {
+                    report.count("positive:accepted");
+                    check_module(&m, &format!("<{}>", origin), &origin, report);
+                    report.distinct(hash_str(&origin));
+                }
+                Ok(None) => report.count("positive:rejected-input"),
+                Err(c) => report.count(&format!("skipped:front-end-panic:{}", c.signature())),
+            }
+        }
+        Case::Prog(i) => {
+            let mut rng = Rng::for_case(seed, 0x3001, *i);
+            let p = prog::generate(&mut rng, prog::Config::default());
+            let text = p.render();
+            if positive(&text, &format!("gen::prog:{}", i), report) {
+                report.distinct(hash_str(&text));
+                if report.want_sample() && i % 211 == 7 {
+                    report.sample(Json::obj().set("kind", "accepted generated program walked by irck").set("program", text));
+                }
+            }
+        }
+        Case::Decl(i) => {
+            let mut rng = Rng::for_case(seed, 0x3002, *i);
+            let d = decl::generate(&mut rng, 10, 3);
+            if positive(&d.text, &format!("gen::decl:{}", i), report) {
+                report.distinct(hash_str(&d.text));
+            }
+        }
+        Case::Negative(i) => {
+            let n = &table[*i];
+            if negative(n, report) {
+                report.distinct(hash_str(&n.bad));
+                report.count(&format!("negative-class:{}", n.class.split(':').next().unwrap_or("")));
+                if report.want_sample() && i % 501 == 3 {
+                    report.sample(Json::obj().set("kind", "negative program (must be rejected)").set("class", n.class).set("program", n.bad.as_str()));
+                }
+            }
+        }
+    });
+    report.count_n("negative_table_size", table.len() as u64);
+    report.count_n("negative_table_taken", taken);
+    if stride == 1 {
+        report.exhaustive = Some(true);
+        report.notes.push("thorough tier: the negative table was enumerated completely".into());
+    }
+    if snippets.len() < 50 {
+        report.inconclusive("could not read the unit-test snippets from /repo");
+    }
+    report
+}
+
+fn replay(_ctx: &Ctx, witness: &Json) -> Report {
+    let mut report = Report::new();
+    let text = witness.get_str("program").unwrap_or("");
+    if let Some(twin) = witness.get_str("accepted_twin") {
+        let n = Negative {
+            class: leak(witness.get_str("class").unwrap_or("replay").to_string()),
+            bad: text.to_string(),
+            twin: twin.to_string(),
+        };
+        negative(&n, &mut report);
+    } else {
+        positive(text, witness.get_str("origin").unwrap_or("replay"), &mut report);
+    }
+    report
+}
